@@ -288,9 +288,16 @@ func c11ReadOnly(t c11Target, seq []int) *core.Finding {
 	d0 := stateDigest(roots...)
 	// initial observations, accessors first: the initial String/Dump/WriteTo
 	// calls are themselves operations that must not change anything
+	// the very first operation is a write: what the packet encodes to
+	// before any accessor, String or Dump has been called on it
+	w0, _, _, wres := writePacket(q, 0)
 	obs0 := flatKV(observeKV(q))
 	obs0 += "|" + q.String() + "|" + dumpOf(q)
 	first, _, _, _ := writePacket(q, 0)
+	if _, isU := q.(*mq.Undefined); !isU && wres.Panic == "" && !bytes.Equal(w0, first) {
+		return &core.Finding{Class: "encoding-changes/after-accessors/" + gen.Schemas[t.Type].Name, Sig: map[string]string{"type": gen.Schemas[t.Type].Name},
+			Detail: fmt.Sprintf("%s: written before any accessor was called %s, written again after the accessors, String and Dump were called %s", desc, abbrevHex(w0), abbrevHex(first))}
+	}
 	names := []string{}
 	for _, oi := range seq {
 		op := c11Ops[oi]
